@@ -427,8 +427,19 @@ def proof_stage(ctx, modules, searcher=None, thorough_leanchecker=True, extra_ta
         ctx.obligation("translator accepts /repo sources", True)
     except Exception as e:      # the translator refusing the source is a check failure by design
         ctx.obligation("translator accepts /repo sources", False, str(e))
-        ctx.violation("translator:" + str(e)[:160], "translator rejected the current source (construct outside the accepted subset)",
-                      dict(error=str(e)), found=False)
+        res = None
+        try:        # the source left the accepted subset: still look for a concrete failing input of the property
+            res = searcher() if searcher else None
+        except Exception as e2:
+            ctx.log("violation search after translator refusal failed: %s" % e2)
+        if res:
+            key, w, replay = res
+            replay = dict(replay) if isinstance(replay, dict) else dict(input=replay)
+            replay["translator_refusal"] = str(e)
+            ctx.violation(key, w, replay, found=True)
+        else:
+            ctx.violation("translator:" + str(e)[:160], "translator rejected the current source (construct outside the accepted subset)",
+                          dict(error=str(e)), found=False)
         return False
     ok, out, failing = ctx.lake(list(modules) + list(extra_targets))
     thms = []
